@@ -59,11 +59,11 @@ ASSUMPTIONS = [
     'panel data with a data-dependent weight formula is refused by the engine (RuntimeError) and therefore outside '
     'what can be observed; panel cases use no weight or a constant weight',
 ]
-MIN_DISTINCT = {'quick': 120, 'thorough': 2500}
-CASE_TIMEOUT = 240
-SHARD_TIMEOUT = {'quick': 900, 'thorough': 3000}
+MIN_DISTINCT = {'quick': 120, 'thorough': 900}
+CASE_TIMEOUT = 900
+SHARD_TIMEOUT = {'quick': 1500, 'thorough': 7200}
 
-N_CASES = {'quick': 288, 'thorough': 5600}
+N_CASES = {'quick': 288, 'thorough': 1200}
 RT_ENGINE = 1e-10
 RT_RUN = 1e-12
 RT_REF_F = 1e-9
@@ -277,11 +277,14 @@ class _Judge:
         self.spec = spec
         self.ref = ref
         self.base_wit = {'spec': spec, 'x': list(x), 'free_names': list(names)}
-        K = len(names)
+        self.nviol = 0
         self.scale = {'f': ref['S_f'], 'g': ref['S_g'], 'H': ref['S_H'], 'B': ref['S_B']}
 
     def viol(self, mech, msg, **kw):
         w = dict(self.base_wit)
+        if self.nviol:
+            w['spec'] = '(same as in the first violation of this case; regenerate with gen.c04_models.make(seed, i, tier))'
+        self.nviol += 1
         w.update(kw)
         self.rec.violation('C04/' + mech, msg, w)
 
@@ -365,6 +368,9 @@ def _simulate(bg, point):
 def run_case(case):
     rec = Rec(case)
     warnings.simplefilter('ignore')
+    if not case:
+        rec.inconc('witness of a schedule / sanitizer sub-run has no case to replay: re-run the tier')
+        return rec.out()
     if case['mode'] == 'directed':
         _directed(case, rec)
     else:
@@ -905,6 +911,7 @@ def _judge_stress(label, res, summary, prop='C04'):
     cov[f'schedule_{label}_evaluations'] = doc['evaluations']
     cov[f'schedule_{label}_cpus_allowed'] = doc.get('cpus_allowed') or 0
     cov[f'schedule_{label}_distinct_thread_counts'] = len(doc['threads_seen'])
+    cov[f'schedule_{label}_monte_carlo_tables'] = doc.get('monte_carlo_tables', 0)
     summary['n'] += doc['evaluations']
     if doc['errors']:
         summary['viol'].append({'mech': f'{prop}/schedule-run-raises', 'msg': f'{label}: {doc["errors"]}', 'witness': doc})
@@ -943,7 +950,7 @@ def extra(seed, tier, workdir):
     import concurrent.futures as cf
 
     with cf.ThreadPoolExecutor(max_workers=4) as ex:
-        futs = {ex.submit(_run_stress, label, prof, seed, d, prefix=pre, timeout=900 if thorough else 300): label for label, pre in plans}
+        futs = {ex.submit(_run_stress, label, prof, seed, d, prefix=pre, timeout=2400 if thorough else 900): label for label, pre in plans}
         # TSan smoke / full alongside
         tsan_fut = None
         if _sanitizer.available('tsan') or (thorough and _sanitizer.ensure('tsan')):
@@ -951,7 +958,7 @@ def extra(seed, tier, workdir):
             pp = os.pathsep.join([_sanitizer.tsan_pkg(), env.VERIF, env.SRC] + [p for p in sys.path if p.endswith('site-packages')])
             tsan_env = {'TSAN_OPTIONS': f'halt_on_error=0 log_path={logbase} report_signal_unsafe=0 verbosity=1'}
             tsan_fut = ex.submit(_run_stress, 'tsan', 'tsan_full' if thorough else 'tsan_smoke', seed, d, launcher=_sanitizer.tsan_launcher(),
-                                 extra_env=tsan_env, pythonpath=pp, timeout=1500 if thorough else 240)
+                                 extra_env=tsan_env, pythonpath=pp, timeout=3000 if thorough else 900)
         for fu, label in futs.items():
             _judge_stress(label, fu.result(), summary)
         if tsan_fut is not None:
@@ -986,7 +993,7 @@ def extra(seed, tier, workdir):
             for _ in range(min(48, 3 * ncpu)):
                 comp.append(subprocess.Popen([sys.executable, '-c', 'import time\nt=time.time()\nwhile time.time()-t<600: pass'],
                                              stdout=subprocess.DEVNULL, stderr=subprocess.DEVNULL))
-            _judge_stress('oversubscribed', _run_stress('oversubscribed', 'sched_quick', seed + 1, d, timeout=900), summary)
+            _judge_stress('oversubscribed', _run_stress('oversubscribed', 'sched_quick', seed + 1, d, timeout=2400), summary)
             summary['cov']['schedule_oversubscribed_competitors'] = len(comp)
         finally:
             for p in comp:
